@@ -83,9 +83,15 @@ def load_store_chunk(
     lock: Any,
     return_stored: bool,
     load_stored: bool,
+    pair: int = 0,
 ) -> Any:
     """
     A function inserted in a Dask graph for storing a chunk.
+
+    ``pair`` is the position of the (source, target) pair in the ``store``
+    call.  It is not used here: it keeps the store-map nodes of two pairs with
+    equal sources and equal-looking targets (targets are named by content)
+    from collapsing into one node, which would write only the first target.
 
     Parameters
     ----------
@@ -284,7 +290,7 @@ def store(
         lock = get_scheduler_lock(Array, kwargs.get("scheduler"))
 
     arrays = []
-    for s, t, r in zip(sources, targets, regions_list):
+    for i, (s, t, r) in enumerate(zip(sources, targets, regions_list)):
         slices = ArraySliceDep(s.chunks)
         arrays.append(
             map_blocks(
@@ -296,6 +302,7 @@ def store(
                 lock=lock,
                 return_stored=return_stored,
                 load_stored=load_stored,
+                pair=i,
                 name="store-map",
                 meta=s._meta,
             )
